@@ -275,7 +275,9 @@ fn lib_transfers(trace: &[WFrame]) -> Vec<(u32, Option<u32>, Vec<u8>, bool)> {
         .collect()
 }
 
-pub async fn scenario_a(snd: Snd, rcv: Rcv, events: Vec<Ev>) -> Obs {
+/// `x0`: the session's initial next-outgoing-id, i.e. the delivery-id of the first delivery (ids are serial numbers:
+/// with x0 = 2^32-2 the four initial deliveries are 2^32-2, 2^32-1, 0, 1 and the ranges of the alphabet wrap)
+pub async fn scenario_a(x0: u32, snd: Snd, rcv: Rcv, events: Vec<Ev>) -> Obs {
     let mut obs = Obs::default();
     let mut auto = Auto::default();
     auto.accept_transfers = false;
@@ -289,7 +291,7 @@ pub async fn scenario_a(snd: Snd, rcv: Rcv, events: Vec<Ev>) -> Obs {
             return obs;
         }
     };
-    let mut session = match scen::begin(&mut c, Session::builder()).await {
+    let mut session = match scen::begin(&mut c, Session::builder().next_outgoing_id(x0)).await {
         Ok(s) => s,
         Err(e) => {
             obs.machinery = Some(e);
@@ -679,12 +681,12 @@ impl Collect {
     }
 }
 
-fn run_history_a(snd: Snd, rcv: Rcv, evs: Vec<Ev>) -> (HistOut, Obs) {
+fn run_history_a(x0: u32, snd: Snd, rcv: Rcv, evs: Vec<Ev>) -> (HistOut, Obs) {
     let scen: Scenario<Obs> = {
         let evs = evs.clone();
         Arc::new(move || {
             let evs = evs.clone();
-            Box::pin(scenario_a(snd, rcv, evs))
+            Box::pin(scenario_a(x0, snd, rcv, evs))
         })
     };
     let ex = run_exec(vec![], &RunCfg::none(), &scen);
@@ -704,7 +706,12 @@ fn run_history_a(snd: Snd, rcv: Rcv, evs: Vec<Ev>) -> (HistOut, Obs) {
     if ex.spun {
         out.machinery = Some(format!("C02/A busy loop detected ({snd:?},{rcv:?},{:?})", evs.iter().map(|e| e.name()).collect::<Vec<_>>()));
     }
-    if !ex.panics.is_empty() && out.machinery.is_none() {
+    // a panic inside the library while the peer and the application stay within the quantifier: the engine that
+    // died cannot resolve the sends or write the settling dispositions the statement asks for
+    if let Some((sig, msg)) = vlib::util::library_panic(&ex.panics) {
+        o.fails.push((sig, format!("a library task panicked: {msg}"), o.executed));
+        out.machinery = None;
+    } else if !ex.panics.is_empty() && out.machinery.is_none() {
         out.machinery = Some(format!("C02/A panic in a task ({snd:?},{rcv:?},{:?}): {:?}", evs.iter().map(|e| e.name()).collect::<Vec<_>>(), ex.panics));
     }
     (out, o)
@@ -725,11 +732,12 @@ fn part_a(ctx: &Ctx, deadline: Instant, out: &mut Outcome, tot: &mut Totals) {
     let pairs: Vec<(Snd, Rcv)> = [Snd::Unsettled, Snd::Mixed, Snd::Settled].into_iter().flat_map(|s| [Rcv::First, Rcv::Second].into_iter().map(move |r| (s, r))).collect();
     // (alphabet kind, depth) levels, in the order they are run; lower depths first so that the shortest
     // counterexample of a class is found
-    let levels: Vec<(bool, usize)> = if ctx.quick() {
-        vec![(true, 1), (true, 2), (true, 3)]
+    // (initial delivery-id, wide alphabet?, depth); W: the delivery-ids of the scenario cross 2^32
+    const W: u32 = u32::MAX - 1;
+    let levels: Vec<(u32, bool, usize)> = if ctx.quick() {
+        vec![(0, true, 1), (0, true, 2), (W, true, 1), (W, true, 2), (0, true, 3)]
     } else {
-        // (wide alphabet?, depth)
-        vec![(true, 1), (true, 2), (true, 3), (true, 4), (false, 5)]
+        vec![(0, true, 1), (0, true, 2), (W, true, 1), (W, true, 2), (0, true, 3), (W, true, 3), (0, true, 4), (0, false, 5)]
     };
     let collect = Mutex::new(Collect::default());
     let cnt_out3 = AtomicU64::new(0);
@@ -739,7 +747,7 @@ fn part_a(ctx: &Ctx, deadline: Instant, out: &mut Outcome, tot: &mut Totals) {
     let cnt_echo = AtomicU64::new(0);
     let cnt_final = AtomicU64::new(0);
     let cnt_entries = AtomicU64::new(0);
-    for (wide, depth) in levels {
+    for (x0, wide, depth) in levels {
         for (snd, rcv) in pairs.iter().copied() {
             // with snd-settle-mode settled every delivery is pre-settled and every disposition refers to an
             // unknown delivery: the deepest levels add nothing there
@@ -748,7 +756,7 @@ fn part_a(ctx: &Ctx, deadline: Instant, out: &mut Outcome, tot: &mut Totals) {
                 continue;
             }
             let alpha = alphabet(rcv, wide);
-            let label = format!("A:{snd:?}/{rcv:?} depth {depth_here} over {} events", alpha.len());
+            let label = format!("A:{snd:?}/{rcv:?} depth {depth_here} over {} events{}", alpha.len(), if x0 != 0 { " (ids cross 2^32)" } else { "" });
             if Instant::now() > deadline {
                 tot.truncated = true;
                 tot.cut.push(label);
@@ -756,7 +764,7 @@ fn part_a(ctx: &Ctx, deadline: Instant, out: &mut Outcome, tot: &mut Totals) {
             }
             let st = search(alpha.len(), depth_here, ctx.threads, deadline, |h| {
                 let evs: Vec<Ev> = h.iter().map(|i| alpha[*i]).collect();
-                let (mut ho, o) = run_history_a(snd, rcv, evs.clone());
+                let (mut ho, o) = run_history_a(x0, snd, rcv, evs.clone());
                 if o.outstanding_at_start >= 3 {
                     cnt_out3.fetch_add(1, Ordering::Relaxed);
                 }
@@ -771,7 +779,7 @@ fn part_a(ctx: &Ctx, deadline: Instant, out: &mut Outcome, tot: &mut Totals) {
                     for (sig, detail, step) in &o.fails {
                         let pre: Vec<Ev> = evs[..(*step).min(evs.len())].to_vec();
                         let names: Vec<String> = pre.iter().map(|e| e.name()).collect();
-                        c.add(sig, names.clone(), json!({"part": "A", "snd": snd, "rcv": rcv, "events": pre, "event_names": names}), format!("snd-settle-mode {snd:?}, rcv-settle-mode {rcv:?}: {detail}"), o.trace.clone());
+                        c.add(sig, names.clone(), json!({"part": "A", "x0": x0, "snd": snd, "rcv": rcv, "events": pre, "event_names": names}), format!("snd-settle-mode {snd:?}, rcv-settle-mode {rcv:?}{}: {detail}", if x0 != 0 { format!(", first delivery-id {x0}") } else { String::new() }), o.trace.clone());
                     }
                 }
                 ho.fails.clear();
@@ -1128,7 +1136,8 @@ fn replay(p: &std::path::Path, mut out: Outcome) -> Outcome {
             let rcv: Rcv = serde_json::from_value(r["rcv"].clone()).unwrap_or(Rcv::First);
             let evs: Vec<Ev> = serde_json::from_value(r["events"].clone()).unwrap_or_default();
             println!("replaying part A: snd {snd:?} rcv {rcv:?} {:?}", evs.iter().map(|e| e.name()).collect::<Vec<_>>());
-            let (ho, o) = run_history_a(snd, rcv, evs);
+            let x0 = r["x0"].as_u64().unwrap_or(0) as u32;
+            let (ho, o) = run_history_a(x0, snd, rcv, evs);
             for l in &ho.trace {
                 println!("  {l}");
             }
